@@ -148,6 +148,11 @@ class PathRun:
                 text = ast.unparse(node)
             except Exception:
                 text = ''
+        if z3.is_and(cond) and cond.num_args() > 1 and '#' not in kind:
+            # one obligation per conjunct (finer diagnostics)
+            for i, c in enumerate(cond.children()):
+                self.oblige(c, '%s#%d' % (kind, i), node, text)
+            return
         name = '%s:%s:%s' % (fr.func, kind, text)
         ob = self.ex.obligations.get(name)
         if ob is None:
